@@ -564,6 +564,167 @@ def sh_run(it, entry, inp, p):
     return [aig.const_bits(r & 0xffffffff, 32)] + [_b(x) for x in it.read_buffer(out, ol)]
 
 
+# ---- SHA-2, HMAC and RFC 9380 expand_message_xmd (real units) vs specification ------------------------------
+SHA_UNITS = ["crypto_hash/sha256/cp/hash_sha256_cp.c", "crypto_hash/sha512/cp/hash_sha512_cp.c", "crypto_auth/hmacsha256/auth_hmacsha256.c",
+             "crypto_auth/hmacsha512/auth_hmacsha512.c", "crypto_auth/hmacsha512256/auth_hmacsha512256.c", "crypto_core/ed25519/core_h2c.c",
+             "crypto_verify/verify.c", "sodium/utils.c"]
+
+
+def sha_inputs(p):
+    global ABSH
+    ABSH = AbstractHash() if p["form"] == "xmd" else None
+    inp = {"msg": sym_bytes("m", p["len"])}
+    if p["form"].startswith("hmac"):
+        inp["key"] = sym_bytes("k", p["klen"])
+    return inp
+
+
+class AbstractHash(object):
+    """SHA-256 / SHA-512 as an uninterpreted function of the hashed byte string (symbolic run of the xmd target): equal
+    inputs give the same fresh output symbols; the real hash units are decided on their own (C04)"""
+
+    def __init__(self):
+        self.table = {}
+        self.states = {}
+
+    def digest(self, bits, data):
+        key = (bits, tuple(tuple(_b(x)) for x in data))
+        r = self.table.get(key)
+        if r is None:
+            r = sym_bytes("H%d_%d_" % (bits, len(self.table)), bits // 8)
+            self.table[key] = r
+        return r
+
+    def install(self, it):
+        for bits in (256, 512):
+            pre = "crypto_hash_sha%d" % bits
+            it.stubs[_name(it, pre + "_init")] = lambda it_, a: (self.states.__setitem__((a[0].obj, a[0].off), []), 0)[1]
+
+            def upd(it_, a):
+                n = a[2]
+                if isinstance(n, T.Term):
+                    raise interp.Unsupported("symbolic hash update length")
+                if n:
+                    self.states[(a[0].obj, a[0].off)] += it_.read_buffer(a[1], n)
+                return 0
+            it.stubs[_name(it, pre + "_update")] = upd
+
+            def fin(it_, a, bits=bits):
+                out = self.digest(bits, self.states[(a[0].obj, a[0].off)])
+                fill(it_, a[1], out)
+                return 0
+            it.stubs[_name(it, pre + "_final")] = fin
+
+
+ABSH = None
+
+
+def _hmac_spec(key, msg, bits, trunc=None):
+    from . import hash_spec
+    bs = 64 if bits == 256 else 128
+    k = list(key)
+    if len(k) > bs:
+        k = hash_spec.sha2(k, bits)
+    k = k + [0] * (bs - len(k))
+    inner = hash_spec.sha2([T.binop("xor", x, 0x36, 8) for x in k] + list(msg), bits)
+    out = hash_spec.sha2([T.binop("xor", x, 0x5c, 8) for x in k] + inner, bits)
+    return out[:trunc] if trunc else out
+
+
+def sha_spec(inp, p):
+    from . import hash_spec
+    f = p["form"]
+    if f in ("hash", "stream"):
+        out = hash_spec.sha2(inp["msg"], p["bits"])
+    elif f == "xmd":
+        symbolic = any(isinstance(x, aig.AV) for x in inp["msg"]) or not inp["msg"]
+        if symbolic and ABSH is not None:
+            # RFC 9380 5.3.1 / 5.3.3 over the abstract hash (the run function of side B installs the same function)
+            bits, n = p["bits"], p["outlen"]
+            hb, bs = bits // 8, (64 if bits == 256 else 128)
+            dst = [0x41 + i % 26 for i in range(p["ctxlen"])]
+            if len(dst) > 255:
+                dst = ABSH.digest(bits, list(b"H2C-OVERSIZE-DST-") + dst)
+            dstp = list(dst) + [len(dst)]
+            b0 = ABSH.digest(bits, [0] * bs + list(inp["msg"]) + [n >> 8, n & 0xff, 0] + dstp)
+            if p.get("_alt") == "oversize-dst-b0" and p["ctxlen"] > 255:
+                # the recorded deviation (known_findings.json): b_1.. computed with b_0 in place of the reduced DST
+                dstp = list(b0) + [len(b0)]
+            out, bi = [], [0] * hb
+            for i in range(1, (n + hb - 1) // hb + 1):
+                bi = ABSH.digest(bits, [T.binop("xor", x, y, 8) for x, y in zip(b0, bi)] + [i] + dstp)
+                out += bi
+            out = out[:n]
+        else:
+            out = hash_spec.expand_message_xmd(inp["msg"], bytes((0x41 + i % 26) for i in range(p["ctxlen"])), p["outlen"], p["bits"])
+    else:
+        out = _hmac_spec(inp["key"], inp["msg"], 256 if p["alg"] == "hmacsha256" else 512, 32 if p["alg"] == "hmacsha512256" else None)
+    return [aig.const_bits(0, 32)] + [_b(x) for x in out]
+
+
+def sha_run(it, entry, inp, p):
+    f, n = p["form"], p["len"]
+    m = it.new_buffer(n, "m", False, [0] * n)
+    fill(it, m, inp["msg"])
+    if f == "xmd":
+        ol, cl = p["outlen"], p["ctxlen"]
+        if ABSH is not None and (any(isinstance(x, aig.AV) for x in inp["msg"]) or not inp["msg"]):
+            ABSH.install(it)
+        out = it.new_buffer(ol, "h", False, [0] * ol)
+        ctx = it.new_buffer(cl + 1, "ctx", False, [(0x41 + i % 26) for i in range(cl)] + [0])
+        r = it.call(_name(it, "core_h2c_string_to_hash"), [out, ol, ctx if cl else 0, m, n, 1 if p["bits"] == 256 else 2])
+        return [aig.const_bits(r & 0xffffffff, 32)] + [_b(x) for x in it.read_buffer(out, ol)]
+    if f in ("hash", "stream"):
+        hl = p["bits"] // 8
+        pre = "crypto_hash_sha%d" % p["bits"]
+        out = it.new_buffer(hl, "out", False, [0] * hl)
+        if f == "hash":
+            r = it.call(_name(it, pre), [out, m, n])
+        else:
+            st = it.new_buffer(256, "state", False, [0] * 256)
+            r = it.call(_name(it, pre + "_init"), [st])
+            cuts = [0] + list(p["splits"]) + [n]
+            for a, b in zip(cuts, cuts[1:]):
+                it.call(_name(it, pre + "_update"), [st, Ptr_off(m, a), b - a])
+            r = it.call(_name(it, pre + "_final"), [st, out])
+        return [aig.const_bits(r & 0xffffffff, 32)] + [_b(x) for x in it.read_buffer(out, hl)]
+    alg, kl = p["alg"], p["klen"]
+    hl = {"hmacsha256": 32, "hmacsha512": 64, "hmacsha512256": 32}[alg]
+    k = it.new_buffer(kl, "k", False, [0] * kl)
+    fill(it, k, inp["key"])
+    out = it.new_buffer(hl, "out", False, [0] * hl)
+    st = it.new_buffer(512, "state", False, [0] * 512)
+    pre = "crypto_auth_" + alg
+    it.call(_name(it, pre + "_init"), [st, k, kl])
+    cuts = [0] + list(p.get("splits", ())) + [n]
+    for a, b in zip(cuts, cuts[1:]):
+        it.call(_name(it, pre + "_update"), [st, Ptr_off(m, a), b - a])
+    r = it.call(_name(it, pre + "_final"), [st, out])
+    return [aig.const_bits(r & 0xffffffff, 32)] + [_b(x) for x in it.read_buffer(out, hl)]
+
+
+def _sha_shapes(tier):
+    q = []
+    for bits, bs in ((256, 64), (512, 128)):
+        pad = bs // 8
+        for n in ((0, 1, bs - pad - 1, bs - pad, bs, bs + 1, 2 * bs + 3) if tier == "quick" else (0, 1, 2, bs - pad - 2, bs - pad - 1, bs - pad, bs - 1, bs, bs + 1, 2 * bs - pad - 1, 2 * bs - pad, 2 * bs, 3 * bs + 5)):
+            q.append(dict(form="hash", bits=bits, len=n))
+        for n, cuts in (((bs + 1, (1,)), (2 * bs, (bs - 1, bs + 1))) if tier == "quick" else ((bs + 1, (1,)), (bs + 1, (bs,)), (2 * bs, (bs - 1, bs + 1)), (2 * bs + 7, (0, bs, 2 * bs)), (3, (1, 2)))):
+            q.append(dict(form="stream", bits=bits, len=n, splits=cuts))
+    for alg, bs in (("hmacsha256", 64), ("hmacsha512", 128), ("hmacsha512256", 128)):
+        for kl, n in (((32, 5), (bs + 1, 3)) if tier == "quick" else ((0, 0), (32, 5), (bs, 1), (bs + 1, 3), (bs + 40, bs + 1))):
+            q.append(dict(form="hmac", alg=alg, klen=kl, len=n, splits=(n // 2,) if n else ()))
+    return q
+
+
+def _xmd_shapes(tier):
+    q = []
+    for bits, ol, cl, n in (((256, 32, 5, 3), (512, 48, 5, 3), (512, 96, 0, 0), (256, 96, 17, 40), (256, 32, 255, 1), (512, 64, 255, 0), (256, 32, 256, 1), (512, 64, 256, 0)) if tier == "quick"
+                            else ((256, 33, 3, 0), (512, 130, 5, 3), (256, 48, 254, 3), (512, 48, 300, 3), (256, 96, 500, 3), (512, 96, 257, 40))):
+        q.append(dict(form="xmd", bits=bits, outlen=ol, ctxlen=cl, len=n))
+    return q
+
+
 def _aegis_shapes(alg, tier, impl):
     r = 32 if alg == "aegis128l" else 16
     q = []
@@ -598,6 +759,11 @@ TARGETS.append(dict(name="stream-ref-spec", inputs=st_inputs, run=st_run, sums=T
 TARGETS.append(dict(name="stream-ref-inplace", inputs=st_inputs, run=st_run, sums=True, a=dict(spec=st_spec),
                     b=dict(units=ST_UNITS, entry=None, undefs=["HAVE_AMD64_ASM"]),
                     quick=[x for x in _st_shapes("quick") if x.get("inplace")], thorough=[x for x in _st_shapes("thorough") if x.get("inplace") and x not in _st_shapes("quick")]))
+TARGETS.append(dict(name="sha2-hmac-spec", inputs=sha_inputs, run=sha_run, sums=True, a=dict(spec=sha_spec), b=dict(units=SHA_UNITS, entry=None),
+                    quick=_sha_shapes("quick"), thorough=[x for x in _sha_shapes("thorough") if x not in _sha_shapes("quick")]))
+TARGETS.append(dict(name="h2c-xmd-spec", inputs=sha_inputs, run=sha_run, sums=True, a=dict(spec=sha_spec), b=dict(units=SHA_UNITS, entry=None),
+                    known_alt=("oversize-dst-b0", lambda p: p["ctxlen"] > 255),
+                    quick=_xmd_shapes("quick"), thorough=_xmd_shapes("thorough")))
 TARGETS.append(dict(name="blake2b-ref-spec", inputs=gh_inputs, run=gh_run, sums=True, a=dict(spec=gh_spec), b=dict(units=B2U, entry=None),
                     quick=_gh_shapes("quick"), thorough=[x for x in _gh_shapes("thorough") if x not in _gh_shapes("quick")]))
 TARGETS.append(dict(name="siphash-ref-spec", inputs=sh_inputs, run=sh_run, sums=True, a=dict(spec=sh_spec),
@@ -685,6 +851,16 @@ def run_one(tname, tier, pidx, workroot, budget=900):
             res["status"] = "violation"
             res["detail"] = "outputs differ for the returned input assignment"
             res["assignment"] = info.get("assignment")
+            alt = t.get("known_alt")
+            if alt and alt[1](p):
+                # is this exactly the recorded deviation (and nothing else)?  decided over the same symbolic inputs
+                try:
+                    oalt = t["a"]["spec"](inp, dict(p, _alt=alt[0]))
+                    v2, _i2 = equiv.check_equal(oalt, outs[1], cnfdir, budget_s=budget, assume=assume)
+                    if v2 == "equal":
+                        res["detail"] += " [known-deviation:%s: the unit equals the specification with exactly this deviation applied, for all inputs of this shape]" % alt[0]
+                except Exception as e3:
+                    res["detail"] += " (known-deviation comparison failed: %r)" % (e3,)
         else:
             res["detail"] = "equivalence not decided within budget: %s" % {k: info[k] for k in info if k != "assignment"}
     except interp.Violation as e:
